@@ -232,6 +232,35 @@ def drive(rec, ms, quick):
     rec.data["events"] = events
 
 
+def drive_simple_sequence(rec, quick):
+    """the *_simple transforms over every dimension inside ONE process, up and then down: the table a call uses may not depend on the
+    dimensions used before (each result must be the bytes the table-based entry point gives)"""
+    L = Lib.get()
+    tables = kernels.Tables(L)
+    rng = random.Random(rec.seed + 909)
+    events = []
+    dims = [1 << s for s in range(0, 17)]
+    for order in (dims, dims[::-1]):
+        for m in order:
+            for tr in ("fft", "ifft"):
+                for layout in ("reim", "cplx"):
+                    if not rec.progress("%s_%s_simple m=%d in a sequence over all dimensions" % (layout, tr, m)):
+                        continue
+                    g = np.random.default_rng(rng.randrange(1 << 30))
+                    z = g.integers(-1000, 1000, 2 * m).astype(np.float64)
+                    a, b = Buf(16 * m, fill=0), Buf(16 * m, fill=0)
+                    a.f64[:] = z
+                    b.f64[:] = z
+                    L.fn("%s_%s_simple" % (layout, tr), "v wp")(m, a.addr)
+                    t = tables.get("new_%s_%s_precomp" % (layout, tr), m, MASK_NONE, ("w", 0))
+                    L.fn("%s_%s" % (layout, tr), "v pp")(t, b.addr)
+                    rec.case(("simple-seq", layout, tr, m), nontrivial=m > 1)
+                    same = a.canaries_ok() and b.canaries_ok() and np.array_equal(a.u8, b.u8)
+                    events.append({"e": "Same", "identical": bool(same), "table_unchanged": True,
+                                   "_what": "%s_%s_simple m=%d in a sequence over all dimensions against the table-based call" % (layout, tr, m)})
+    rec.data["events"] = events
+
+
 def drive_helpers(rec, quick):
     """index helpers of commons_private.c on every power of two and on sampled arguments"""
     rng = random.Random(rec.seed + 404)
@@ -325,9 +354,10 @@ def run(chk, replay=None):
             tabs.append(tb)
     ms = [1 << s for s in range(0, 13)] + [65536] if quick else [1 << s for s in range(0, 17)]
     jobs = [("FFT probes m=%s" % ms[i::7], drive, (ms[i::7], quick)) for i in range(7)] + [("table binding", drive_tables, (tabs,)),
-                                                                                              ("index helpers", drive_helpers, (quick,))]
-    res = isolated_many(chk, jobs, timeout=3000, nproc=9)
-    events = [ev for d in res[:7] if d for ev in d["events"]] + (res[8]["events"] if res[8] else [])
+                                                                                              ("index helpers", drive_helpers, (quick,)),
+                                                                                              ("*_simple over all dimensions in one process", drive_simple_sequence, (quick,))]
+    res = isolated_many(chk, jobs, timeout=3000, nproc=10)
+    events = [ev for d in res[:7] if d for ev in d["events"]] + (res[8]["events"] if res[8] else []) + (res[9]["events"] if res[9] else [])
     td = res[7] or {}
     chk.cov["table_entries_checked"] = td.get("checked", 0)
     if td.get("drift"):
